@@ -144,6 +144,7 @@ def execute(sc, choices=None, lenient=False):
     finished = []
     sems = []
     waiting = {}
+    nonblocking = {}
     stuck_early = []
 
     def record(op, args, fn):
@@ -193,9 +194,12 @@ def execute(sc, choices=None, lenient=False):
                 if op[0] == 'acq':
                     tag, blocking = op[1], op[2]
                     waiting[wi] = si
+                    if not blocking:
+                        nonblocking[wi] = (si, tag)
                     h = record('acq', (si, tag, blocking),
                                lambda: sem.acquire(tag, blocking))
                     waiting.pop(wi, None)
+                    nonblocking.pop(wi, None)
                     if h['res'][0] == 'ok':
                         pool.append((si, tag, h['res'][1] if kind == 'sliding' else len(hist)))
                 elif op[0] == 'rel':
@@ -236,6 +240,15 @@ def execute(sc, choices=None, lenient=False):
             # quiescent: whoever is still inside acquire() of a semaphore none
             # of whose tokens is held any more has lost its wake-up (semaphores
             # are independent: what happens to another one must not matter)
+            if nonblocking:
+                # nothing can run and a thread is still inside acquire(blocking=
+                # False): it is WAITING, where it had to raise or return
+                wi = sorted(nonblocking)[0]
+                violations.append(['C12', 'nonblocking-acquire-waits',
+                                   'acquire(%r, blocking=False) is waiting for capacity instead '
+                                   'of raising NoResourcesAvailable' % (nonblocking[wi][1],), {}])
+                stuck_early.append(1)
+                break
             lost = [wi for wi, si in sorted(waiting.items())
                     if not any(x[0] == si for x in pool)]
             if lost and pool:
